@@ -33,6 +33,8 @@ func Cred(class string, user bool) string {
 		return "a=b " + base
 	case "both":
 		return "cn=doe,ou=people " + base
+	case "fullwidth": // fullwidth comma and equals sign (U+FF0C, U+FF1D): not the delimiters of the SCRAM message syntax
+		return "東京，タロウ＝1 " + base
 	case "empty":
 		return ""
 	case "ctl":
